@@ -81,7 +81,7 @@ macro "cns_simp" "[" ts:Lean.Parser.Tactic.simpLemma,* "]" : tactic =>
       rir_elems, rir_triggers, rir_flags, pui_elems, pui_triggers, pui_flags, rdr_elems, rdr_triggers, rdr_flags,
       gui_elems, gui_flags, gbm_elems, gbm_flags, pbm_elems, pbm_triggers, pbm_flags, ror_elems, ror_triggers, ror_flags,
       initPrev, recordNextStep, pyIndex, isActionable, isMatch, Event.triggers, eval, evalBin, truthy_bool, set_nil, V.pyLt, V.num?, pyLen, get_set, $ts,*] <;> try simp [markInterrupted, extensionInterrupt, reactivateAborted, resumeLoop, resumePass, setAt, find_pui, find_rir, find_rdr, find_gui, find_gbm, find_pbm, find_ror,
-      SUB_FUEL, slideWithSubflows, SLIDE_FUEL, slide, sstep, initPrev, recordNextStep, pyIndex, isActionable, eval, evalBin, truthy_bool, set_nil,
+      SUB_FUEL, slideWithSubflows, SLIDE_FUEL, slide, sstep, initPrev, recordNextStep, pyIndex, isActionable, eval, evalBin, truthy_bool, set_nil, V.num?, V.pyLt, pyLen,
       rir_elems, rir_flags, pui_elems, pui_flags, rdr_elems, rdr_flags, gui_elems, gui_flags, gbm_elems, gbm_flags, pbm_elems, pbm_flags, ror_elems, ror_flags, get_set, $ts,*]))
 
 theorem set_cons_ne (k' : String) (v' : V) (rest : Ctx) (k : String) (v : V) (h : (k' != k) = true) :
